@@ -106,20 +106,8 @@ def gen_kf_rs():
 
 
 def gen_registry():
-    """replay/src/registry.rs from the proof!(name, unwind, path) lines of kani/src/proofs.rs."""
-    src = open(os.path.join(VERIF, "kani", "src", "proofs.rs")).read()
-    entries = re.findall(r"^proof(?:_[a-z0-9_]+)?!\(\s*([a-z0-9_]+)\s*,\s*[0-9]+\s*,\s*([A-Za-z0-9_:]+)", src, re.M)
-    lines = ["//! GENERATED by lib/common.py from kani/src/proofs.rs — do not edit.",
-             "use crate::harness;", "pub fn lookup(name: &str) -> Option<fn()> {", "    match name {"]
-    for name, path in entries:
-        lines.append('        "%s" => Some(%s),' % (name, path))
-    lines += ["        _ => None,", "    }", "}"]
-    text = "\n".join(lines) + "\n"
-    p = os.path.join(VERIF, "replay", "src", "registry.rs")
-    old = open(p).read() if os.path.exists(p) else None
-    if old != text:
-        open(p, "w").write(text)
-    return dict(entries)
+    import gen
+    return gen.generate()
 
 
 # ----------------------------------------------------------------------------------------------
@@ -134,6 +122,8 @@ def build_replay(profile="dev"):
         return _replay_built[profile]
     gen_kf_rs()
     gen_registry()
+    import genapi
+    genapi.generate()
     crate = os.path.join(VERIF, "replay")
     sync_lock(crate)
     tdir = os.path.join(SCRATCH, "replay-target")
